@@ -35,6 +35,7 @@ Cases     == JsonDeserialize(IOEnv.CASE_FILE)
 \* real reader of cmd_line.txt is strict is measured by the harness on the real code (one replay case).
 ScriptSet     == { ScriptSeq[j] : j \in 1..Len(ScriptSeq) }
 StrictFromEnv == IOEnv.STRICT_CMDLINE = "1"
+FirstRunFromEnv == IOEnv.FIRSTRUN_READS_CMDLINE = "1"
 
 Range(s) == { s[j] : j \in 1..Len(s) }
 Sig(x) == [core |-> x[Core].st, corever |-> x[Core].ver, cmdl |-> x[Cmdl].st, cmdlver |-> x[Cmdl].ver]
@@ -46,7 +47,7 @@ ModelVerdict(scr, n, x) ==
     LET v == Verdict(scr, n, x)
         o == RecoverOutcome(x)
     IN [mode |-> "model", id |-> scr.id, k |-> n, clause |-> v, kind |-> scr.kind, sig |-> Sig(x),
-        predicted |-> o, nextop |-> IF n < Len(scr.ops) THEN scr.ops[n + 1] ELSE Op("end", "", "")]
+        predicted |-> o, lost |-> IF o.ok THEN Lost(scr, o) ELSE <<>>, nextop |-> IF n < Len(scr.ops) THEN scr.ops[n + 1] ELSE Op("end", "", "")]
 
 InitModel == /\ Init
              /\ LET v == ModelVerdict(sc, 0, fs) IN v.clause = "ok" \/ PrintT(ToJson(v))
@@ -71,13 +72,17 @@ Disagreeing(c, m) == { j \in 1..Len(c.crash) : ~FileAgrees(c.crash[j], m, c.abor
 \* observed option values: every option must carry an old or a new value (for a fresh directory the
 \* old values are the defaults; the harness then labels defaults as "old" too)
 BadOptions(c) == { j \in 1..Len(c.labels) : Range(c.labels[j].is) \cap {"old", "new"} = {} }
-\* ... and the generation the model predicts must be among the labels of every option
-Unpredicted(c, ver) == { j \in 1..Len(c.labels) : ver \notin Range(c.labels[j].is) }
+\* ... and the generation the model predicts for the class of the option (d: given with -D, m: set by
+\* a machine file, e: taken from the first run's environment) must be among its labels
+PredFor(o, cls) == IF cls = "m" THEN o.vm ELSE IF cls = "e" THEN o.ve ELSE o.vd
+Unpredicted(c, o) == { j \in 1..Len(c.labels) : PredFor(o, c.labels[j].cls) \notin Range(c.labels[j].is) }
+SetToSortedClasses(S) == (IF "d" \in S THEN <<"d">> ELSE <<>>) \o (IF "m" \in S THEN <<"m">> ELSE <<>>) \o (IF "e" \in S THEN <<"e">> ELSE <<>>)
+LostObserved(c) == SetToSortedClasses({ c.labels[j].cls : j \in BadOptions(c) })
 TornAfter(c) == { j \in 1..Len(c.after) : c.after[j].st \in {"empty", "partial"} }
 
 V(c, clause, kind, m, note) ==
     [mode |-> "real", id |-> c.id, clause |-> clause, kind |-> kind, sig |-> Sig(m),
-     predicted |-> RecoverOutcome(m), note |-> note]
+     predicted |-> RecoverOutcome(m), lost |-> IF clause = "ValuesOldOrNew" THEN LostObserved(c) ELSE <<>>, note |-> note]
 
 JudgeState(c, scr, m) ==
     LET o == RecoverOutcome(m)
@@ -94,8 +99,8 @@ JudgeState(c, scr, m) ==
              THEN V(c, "RolledBack", scr.kind, m, ToString({ c.labels[j] : j \in { n \in 1..Len(c.labels) : "old" \notin Range(c.labels[n].is) } }))
         ELSE IF TornAfter(c) # {} THEN V(c, "StateReadable", scr.kind, m, ToString({ c.after[j] : j \in TornAfter(c) }))
         ELSE IF ~o.ok THEN V(c, "ModelDisagrees", scr.kind, m, "model-predicted-failure")
-        ELSE IF Unpredicted(c, o.ver) # {} THEN V(c, "ModelDisagrees", scr.kind, m,
-                                                  ToString(<<o.ver, { c.labels[j] : j \in Unpredicted(c, o.ver) }>>))
+        ELSE IF Unpredicted(c, o) # {} THEN V(c, "ModelDisagrees", scr.kind, m,
+                                                  ToString(<<o, { c.labels[j] : j \in Unpredicted(c, o) }>>))
         ELSE V(c, "ok", scr.kind, m, "")
 
 JudgeKill(c) == LET scr == ScriptSeq[c.script] IN JudgeState(c, scr, Run(scr, c.k))
@@ -111,8 +116,8 @@ JudgeReplay(c) ==
         ELSE IF ~c.ok /\ o.ok THEN V(c, "ReaderLessTolerant", scr.kind, m, "")
         ELSE IF c.ok /\ ~o.ok THEN V(c, "ModelDisagrees", scr.kind, m, "model-predicted-failure")
         ELSE IF ~c.ok THEN V(c, "ok", scr.kind, m, "")
-        ELSE IF Unpredicted(c, o.ver) # {} THEN V(c, "ReaderValues", scr.kind, m,
-                                                  ToString(<<o.ver, { c.labels[j] : j \in Unpredicted(c, o.ver) }>>))
+        ELSE IF Unpredicted(c, o) # {} THEN V(c, "ReaderValues", scr.kind, m,
+                                                  ToString(<<o, { c.labels[j] : j \in Unpredicted(c, o) }>>))
         ELSE V(c, "ok", scr.kind, m, "")
 
 \* one initial state per case (pc = index of the case); the other variables of BuildDirCrash are idle
